@@ -23,9 +23,22 @@ func newReceivePayloadQueue(maxTSNOffset uint32) *receivePayloadQueue {
 	maxTSNOffset = ((maxTSNOffset + 63) / 64) * 64
 
 	return &receivePayloadQueue{
-		tsnBitmask:   make([]uint64, maxTSNOffset/64),
+		tsnBitmask:   make([]uint64, tsnBitmaskWords(maxTSNOffset)),
 		maxTSNOffset: maxTSNOffset,
 	}
+}
+
+// tsnBitmaskWords returns the number of 64-bit words used to track maxTSNOffset
+// TSNs. The bitmap is indexed as a ring by (tsn/64)%words, which is only
+// continuous across the 32-bit TSN wrap-around when words divides 2^26, so the
+// count is rounded up to a power of two.
+func tsnBitmaskWords(maxTSNOffset uint32) int {
+	words := (maxTSNOffset + 63) / 64
+	if words <= 1 {
+		return 1
+	}
+
+	return 1 << bits.Len32(words-1)
 }
 
 func (q *receivePayloadQueue) init(cumulativeTSN uint32) {
